@@ -146,7 +146,7 @@ def replay(ctx, path):
     print("implementation:", json.dumps(impl))
     if coq_case:
         rc, out = wc.eval_single(ctx, "C08_replay", coq_case, [
-            ("model", "model_obs (cfg_of_case w) (w_roots w)"),
+            ("model", "model_obs_d (cfg_of_case w) (w_dets w) (w_roots w)"),
             ("model_eq_impl", "case_model_ok w"),
             ("scan_sorted_ok", "scan_sorted (w_obs w)"),
             ("multi_in_D", "c08_multi_domain w"), ("union_ok", "c08_union_on_obs w"), ("spec_ok", "case_spec_ok_C08 w")])
